@@ -46,7 +46,11 @@ func observe(s *Shard, ids []uuid.UUID) snapshot {
 	for p := int64(0); p < 3; p++ {
 		sn.prices = append(sn.prices, priceCount(s, p))
 	}
-	res, err := s.SearchPoints(models.SearchRequest{Query: models.Query{Property: "vec", VectorFlat: &models.SearchVectorFlatOptions{Vector: []float32{0, 0}, Operator: models.OperatorNear, Limit: 5}}, Limit: 10})
+	q := models.Query{Property: "vec", VectorFlat: &models.SearchVectorFlatOptions{Vector: []float32{0, 0}, Operator: models.OperatorNear, Limit: 5}}
+	if s.collection.IndexSchema["vec"].Type == models.IndexTypeVectorVamana {
+		q = models.Query{Property: "vec", VectorVamana: &models.SearchVectorVamanaOptions{Vector: []float32{0, 0}, Operator: models.OperatorNear, SearchSize: 3, Limit: 3}}
+	}
+	res, err := s.SearchPoints(models.SearchRequest{Query: q, Limit: 10})
 	vassert("observe-vector-search-ok", err == nil)
 	sn.nearest = len(res)
 	sn.nearIds = resultIds(res)
@@ -294,4 +298,45 @@ func VerifAnswersIndependentOfCacheLimit() {
 		vassert("no-shared-caching-gives-the-same-answers", sameSnapshot(unlimited[i], none[i], ids))
 		vassert("pruned-caches-give-the-same-answers", sameSnapshot(unlimited[i], tiny[i], ids))
 	}
+}
+
+// ---- C07: a batch in which an index rejects a value (a field of the wrong type: the error comes
+// from an index stage, not from storage) while more points are still queued behind it. The write
+// method returns the error - it does not hang -, no goroutine of the batch touches storage after
+// the transaction ended, and every later answer is unchanged.
+func VerifIndexRejectedBatch() {
+	schema := atomicSchema()
+	if vparam("SCHEMA", 0) == 1 {
+		schema = graphSchema() // integer index + graph index with its insert workers
+	}
+	s, st := verifShard(schema)
+	a := uuid.UUID{1}
+	ids := []uuid.UUID{a, {2}, {3}, {4}}
+	vassume(s.InsertPoints([]models.Point{{Id: a, Data: vdoc(vecDoc(0, 1, 1))}}) == nil)
+	before := observe(s, ids)
+	n := vparam("BATCH", 3)
+	bad := nondetIntRange(0, n-1)
+	badField := nondetIntRange(0, 1)
+	batch := make([]models.Point, n)
+	for i := range batch {
+		doc := vecDoc(int64(i), float32(i+2), float32(i+2))
+		if i == bad {
+			if badField == 0 {
+				doc["price"] = "not a number" // rejected by the integer index
+			} else {
+				doc["vec"] = "not a vector" // rejected by the vector index
+			}
+		}
+		batch[i] = models.Point{Id: ids[i+1], Data: vdoc(doc)}
+	}
+	st.useAfterEnd = 0
+	st.strict = true
+	st.yieldOnOps = true
+	vsched(1)
+	err := s.InsertPoints(batch) // a deadlock of the pipeline is reported by the executor (natively: timeout)
+	vcover("reached")
+	vassert("batch-rejected-by-an-index-reports-an-error", err != nil)
+	after := observe(s, ids)
+	vassert("failed-batch-leaves-every-answer-unchanged", sameSnapshot(before, after, ids))
+	vassert("no-storage-access-after-the-transaction-ended", st.useAfterEnd == 0)
 }
